@@ -55,6 +55,8 @@ type pathState struct {
 	atoms     map[int]*decAtom // term id -> digitisation (per path)
 	linked    map[*decAtom]bool
 	tblVars   map[tblKey]*Term // large-table reads abstracted on this path
+	tblRecs   []*tblRec
+	tblFacts  []*Term
 	asserts   int
 	unsatAsserts int
 	knownHit  map[string]bool
@@ -573,6 +575,7 @@ func (fr *frame) tableAbstraction(elems []value, lo, hi uint64, idx *Term, k typ
 	}
 	v := st.Var(fmt.Sprintf("tbl!%d", len(p.tblVars)), w)
 	p.tblVars[key] = v
+	p.tblRecs = append(p.tblRecs, &tblRec{idx: idx, v: v, elems: elems, mask: mask, done: map[uint64]bool{}})
 	cond := st.ff
 	start := 0
 	for i := 1; i <= len(vals); i++ {
@@ -585,6 +588,14 @@ func (fr *frame) tableAbstraction(elems []value, lo, hi uint64, idx *Term, k typ
 	in.sv.Assert(cond)
 	in.Stats.TableAbstractions++
 	return in.mkSym(v, k), true
+}
+
+// tblRec remembers an abstracted table read for model refinement.
+type tblRec struct {
+	idx, v *Term
+	elems  []value
+	mask   uint64
+	done   map[uint64]bool
 }
 
 type tblKey struct {
@@ -612,11 +623,78 @@ func identicalValue(a, b value) bool {
 // ---- assertions ----
 
 func (in *Interp) fullModel() (map[string]int64, bool) {
+	m, r := in.fullModelR()
+	return m, r == Sat
+}
+
+// fullModelR checks the current solver state and returns a model of the
+// path's variables.  Where table reads were abstracted on this path the model
+// is refined first (counterexample-guided): for the index the model picks,
+// the true table entry is asserted — (idx = i) => (v = table[i]) — and the
+// query repeated, until the model agrees with the table on every read, the
+// query becomes unsat (the candidate was an artefact of the abstraction), or
+// the iteration bound is hit (the model is then reported as it is and has to
+// survive native replay).  The added facts are true of the table, so they
+// stay asserted in the caller's solver scope.
+func (in *Interp) fullModelR() (map[string]int64, Result) {
 	p := in.path
 	r := in.sv.Check(in.cfg.AssertTimeoutMs)
 	in.Stats.SolverQueries++
 	if r != Sat {
-		return nil, false
+		return nil, r
+	}
+	for iter := 0; iter < 64 && len(p.tblRecs) > 0; iter++ {
+		vars := append([]*Term{}, p.vars...)
+		seen := map[int]bool{}
+		var walk func(t *Term)
+		walk = func(t *Term) {
+			if seen[t.id] {
+				return
+			}
+			seen[t.id] = true
+			if t.op == OpVar {
+				vars = append(vars, t)
+			}
+			for _, a := range t.args {
+				walk(a)
+			}
+		}
+		for _, rec := range p.tblRecs {
+			walk(rec.idx)
+			walk(rec.v)
+		}
+		um := in.sv.Model(vars)
+		memo := map[int]uint64{}
+		refined := false
+		for _, rec := range p.tblRecs {
+			i := rec.idx.Eval(um, memo)
+			if i >= uint64(len(rec.elems)) {
+				continue
+			}
+			b, ok := intBits(rec.elems[i])
+			if !ok {
+				continue
+			}
+			want := uint64(b) & rec.mask
+			if um[rec.v.name] == want || rec.done[i] {
+				continue
+			}
+			rec.done[i] = true
+			st := in.st
+			fact := st.Or(st.Not(st.Eq(rec.idx, st.Const(rec.idx.w, i))), st.Eq(rec.v, st.Const(rec.v.w, want)))
+			in.sv.Assert(fact)
+			p.tblFacts = append(p.tblFacts, fact)
+			in.Stats.TableRefinements++
+			refined = true
+		}
+		if !refined {
+			break
+		}
+		r = in.sv.Check(in.cfg.AssertTimeoutMs)
+		in.Stats.SolverQueries++
+		if r != Sat {
+			return nil, r
+		}
 	}
 	m := in.sv.Model(p.vars)
 	out := map[string]int64{}
@@ -632,7 +710,7 @@ func (in *Interp) fullModel() (map[string]int64, bool) {
 			out[v.name] = int64(u)
 		}
 	}
-	return out, true
+	return out, Sat
 }
 
 func (in *Interp) mkViolation(fr *frame, id, msg string, model map[string]int64) *Violation {
@@ -732,9 +810,30 @@ func (fr *frame) assert(cond value, id string) {
 			inconclusive("solver unknown on known-finding exclusion for %s", id)
 		}
 	}
-	model, ok := in.fullModel()
+	nfacts := len(p.tblFacts)
+	model, mr := in.fullModelR()
 	in.sv.Pop()
-	if !ok {
+	// refinement facts are true of the tables: keep them on the path
+	for _, f := range p.tblFacts[nfacts:] {
+		in.sv.Assert(f)
+	}
+	if mr == Unsat && len(p.tblFacts) > nfacts {
+		// the candidate existed only under the table abstraction; with the
+		// true table entries the path itself may be gone
+		pr := in.sv.Check(in.cfg.FeasTimeoutMs)
+		in.Stats.SolverQueries++
+		if pr == Unsat {
+			panic(pathEnd{kind: "infeasible"})
+		}
+		if pr == Unknown {
+			inconclusive("solver unknown after table refinement at assertion %s", id)
+		}
+		in.Stats.Unsat++
+		p.unsatAsserts++
+		in.assumeQuiet(c)
+		return
+	}
+	if mr != Sat {
 		inconclusive("could not extract model for violated assertion %s", id)
 	}
 	v := in.mkViolation(fr, id, "assertion violated", model)
